@@ -295,7 +295,19 @@ def make_resource(holder, cfg):
             # ... and carries on for a while (the framework must not pull from the server any more)
             await env.gate('a')
 
-    return {'A': A, 'B': B, 'C': C, 'D': D, 'E': E, 'F': F}[shape]()
+    class G:
+        # a close() that is REJECTED (invalid code -> documented ValueError, nothing sent): the connection is as before
+        async def on_websocket(self, req, ws):
+            await ws.accept()
+            await env.gate('a')
+            try:
+                await ws.close(cfg['bad_code'])
+                env.problems.append('close(%r) did not raise ValueError' % (cfg['bad_code'],))
+            except ValueError:
+                env.log.append(('close-rejected', cfg['bad_code']))
+            await receiver(ws, r)
+
+    return {'A': A, 'B': B, 'C': C, 'D': D, 'E': E, 'F': F, 'G': G}[shape]()
 
 
 class Violation(Exception):
@@ -506,6 +518,13 @@ def gen_cfgs(tier):
                     for fails in (True, False, 'handler'):
                         cfgs.append({'shape': 'F', 'k': k, 'cap': cap, 'disc': disc, 'r': r, 's': 0, 'send_suspends': False,
                                      'close_fails': fails})
+    for k in range(1, (2 if tier == 'quick' else 3) + 1):
+        for cap in (0, 1, 2):
+            for disc in (True, False):
+                for r in (range(1, k + 2) if disc else range(1, k + 1)):
+                    for code in (999, 1005):
+                        cfgs.append({'shape': 'G', 'k': k, 'cap': cap, 'disc': disc, 'r': r, 's': 0, 'send_suspends': False,
+                                     'bad_code': code})
     kc = 2 if tier == 'quick' else 4
     for k in range(0, kc + 1):
         for cap in (0, 1, 2, 3):
